@@ -74,13 +74,21 @@ func TestVP_C32_Agent(t *testing.T) {
 			connect(r)
 		}
 		// a live tunnel through the current connection
+		diag := func() string {
+			u.tcpRelay.mu.RLock()
+			nrel := len(u.tcpRelay.byUpstream)
+			u.tcpRelay.mu.RUnlock()
+			rI := m.agents["I"].routeMgr.Lookup(net.ParseIP("127.0.0.1"))
+			rU := u.routeMgr.Lookup(net.ParseIP("127.0.0.1"))
+			return fmt.Sprintf("U->P conn=%v P->U conn=%v I route=%v U route=%v U relays=%d P exit conns=%d", u.peerMgr.GetPeer(p.ID()) != nil, p.peerMgr.GetPeer(u.ID()) != nil, rI != nil, rU != nil, nrel, p.exitHandler.ConnectionCount())
+		}
 		conn, err := m.agents["I"].Dial("tcp", fmt.Sprintf("127.0.0.1:%d", echo.Port))
 		if err != nil {
-			rt.Fatalf("harness: dial: %v (history %s)", err, strings.Join(hist, "; "))
+			rt.Fatalf("harness: dial: %v [%s] (history %s)", err, diag(), strings.Join(hist, "; "))
 		}
 		defer conn.Close()
 		if _, err := vpEchoExchange(conn, 5, []int{3000}, 5*time.Second); err != nil {
-			rt.Fatalf("harness: exchange before the stale notifications: %v", err)
+			rt.Fatalf("harness: exchange before the stale notifications: %v [%s] (history %s)", err, diag(), strings.Join(hist, "; "))
 		}
 		live := u.peerMgr.GetPeer(p.ID())
 		routeBefore := u.routeMgr.Lookup(net.ParseIP("127.0.0.1"))
